@@ -30,8 +30,18 @@ _CAT_RE = {
 }
 
 
+_CP = {}
+
+
 def class_pred(items):
-    """python predicate for an IN node"""
+    """python predicate for an IN node (cached per node)"""
+    r = _CP.get(id(items))
+    if r is None:
+        r = _CP[id(items)] = (_class_pred(items), items)
+    return r[0]
+
+
+def _class_pred(items):
     negate = False
     tests = []
     for op, av in items:
@@ -95,10 +105,16 @@ class Matcher:
         self.I, self.W, self.cs, self.flags = I, W, cs, flags
         self.n = len(cs)
 
-    def test(self, c, f):
+    def test(self, c, f, ck=None):
         if isinstance(c, str):
             return f(c)
-        return self.I.truth(self.W, c.pred(f))
+        return self.I.truth(self.W, c.pred(f, ck))
+
+    def lit(self, c, code, neg=False):
+        if isinstance(c, str):
+            return (ord(c) == code) != neg
+        r = c.eq(chr(code))
+        return self.I.truth(self.W, b_not(r) if neg else r)
 
     def seq(self, items, i, pos, groups, k):
         if i == len(items):
@@ -107,11 +123,11 @@ class Matcher:
         rest = lambda p, g: self.seq(items, i + 1, p, g, k)
         cs, n = self.cs, self.n
         if op is C.LITERAL:
-            if pos < n and self.test(cs[pos], lambda ch: ord(ch) == av):
+            if pos < n and self.lit(cs[pos], av):
                 return rest(pos + 1, groups)
             return None
         if op is C.NOT_LITERAL:
-            if pos < n and self.test(cs[pos], lambda ch: ord(ch) != av):
+            if pos < n and self.lit(cs[pos], av, True):
                 return rest(pos + 1, groups)
             return None
         if op is C.ANY:
@@ -120,7 +136,7 @@ class Matcher:
             return None
         if op is C.IN:
             f = class_pred(av)
-            if pos < n and self.test(cs[pos], f):
+            if pos < n and self.test(cs[pos], f, ("re", id(av))):
                 return rest(pos + 1, groups)
             return None
         if op is C.BRANCH:
